@@ -64,6 +64,12 @@ CLAIMED["C33"] = ("sauth", "exploration",
    "How malformed source-address entries are treated beyond 'cannot match' is not asserted. Premature disconnects are not asserted.",
    "DESIGN.md section 4 H-sauth")
 
+CLAIMED["C50"] = ("acme", "exploration",
+   "deterministic simulation of the real ACME client against a simulated CA (http.RoundTripper) with a fake clock, seeded response faults and concurrent callers; the CA records every request with its simulated time",
+   "1-3 caller tasks share one real acme.Client (instrumented) whose HTTPClient is a simulated RFC 8555 CA; responses follow a seeded fault plan (badNonce, 5xx, 429 with Retry-After, fatal 4xx, dropped reply, malformed body, missing Replay-Nonce, slow replies racing context deadlines on the fake clock), with default and custom RetryBackoff. Oracles evaluated by the CA-side recorder: every JWS nonce was issued by the CA to this client and never seen before; a badNonce is retried with a different nonce; fatal 4xx is not retried; a custom backoff that stops after N bounds attempts by N+1; no retry at the same instant as the failed attempt nor earlier than Retry-After; no request after the context deadline; the caller's value/error corresponds to the final reply; nobody is parked at quiescence. Seeded sampling.",
+   "The exact exponential back-off schedule is not asserted (documentation and code differ, the property is silent). With several callers the return instant is not asserted because calls can wait on the client's internal locks (observed, outside the property). net/http.Client.Do runs uninstrumented (it starts no goroutine with a custom RoundTripper and no Timeout).",
+   "DESIGN.md section 4 H-acme")
+
 NA = {
  "C01": "pure function of (key, nonce, plaintext, ad): no schedule, clock, peer, stream fault or persisted state for a simulator to own; needs an independent AEAD and input generation (differential testing)",
  "C02": "pure predicate over byte strings; tampering here is input mutation, not an in-flight fault on a stateful stream",
@@ -107,7 +113,7 @@ NA = {
 PLANNED = {
   
   "C34": "H-cauth", "C35": "H-flow", "C36": "H-mux",
- "C43": "H-agent",  "C50": "H-acme", "C51": "H-autocert",
+ "C43": "H-agent",   "C51": "H-autocert",
 }
 
 def main():
